@@ -185,6 +185,20 @@ def run_absent(case, res=None):
                 res.cls("absent:" + tag)
             if i < len(kws):  # interleave with a present keyword; its correctness belongs to C01 but an exception here is ours
                 built.search(kws[i])
+        # the empty byte string is not a valid keyword (so a loud refusal is acceptable), but it is a prefix of every stored
+        # keyword: if the search completes it must not return identifiers of other keywords or of padding entries
+        try:
+            got = built.scheme.Search(built.edb, built.scheme.TokenGen(built.key, b"")).get_result_list()
+        except Exception:
+            got = None
+            if res is not None:
+                res.cls("absent:empty_keyword_refused")
+        if got is not None:
+            if res is not None:
+                res.cls("absent:empty_keyword")
+            if len(got) != 0:
+                raise Violation("%s: Search(empty keyword) returned %d identifiers: %r" % (built.scheme_name, len(got), list(got)[:3]),
+                                "%s:absent_nonempty" % built.scheme_name)
         return len(absent)
 
 
